@@ -134,3 +134,14 @@ def m(p, t, env=None):
 
 def members(t):
     return list(t[1]) if t[0] == "phi" else [t]
+
+
+ITER_WRAPPERS = ("core::slice::iter", "core::iter::Iterator::copied", "core::iter::Iterator::cloned", "alloc::vec::Vec::iter",
+                 "core::iter::IntoIterator::into_iter", "core::iter::Iterator::by_ref")
+
+
+def strip_iter(t):
+    """the collection an iterator expression walks over, in order (iter(), copied(), cloned() peeled)"""
+    while t[0] == "call" and isinstance(t[1], str) and core.callee_base(t[1]) in ITER_WRAPPERS and t[2]:
+        t = t[2][0]
+    return t
